@@ -35,33 +35,32 @@ typedef struct {
 #define NOH H_NONE
 static const cfg_t cfgs[] = {
     /* ---- quick tier ---------------------------------------------------- */
-    { "X join ULT@1 ret", 1, J_EXT, 0, T_ULT, 1, B_RET, C_JOIN, NOH, O_TJ, 0,
-      -1, 0 },
+    { "X join ULT@1 cancelled by P", 1, J_EXT, 0, T_ULT, 1, B_CANCEL, C_JOIN,
+      H_PRIM, O_TJ, 0, -1, 0 },
+    { "U@0 join x2 ULT@1 exit_to", 1, J_OTHER, 0, T_ULT, 1, B_EXITTO, C_JOIN2,
+      NOH, O_TJ, 0, -1, 0 },
     { "U@0 join ULT@1 ret", 1, J_OTHER, 0, T_ULT, 1, B_RET, C_JOIN, NOH, O_TJ,
       0, -1, 0 },
     { "P free ULT@1 self_exit", 1, J_PRIM, 0, T_ULT, 1, B_EXIT, C_FREE, NOH,
       O_TJ, 0, -1, 0 },
-    { "U@1 join ULT@1 yield-ret (same pool)", 1, J_SAME, 1, T_ULT, 1, B_YRET,
-      C_JOIN, NOH, O_TJ, 0, -1, 0 },
     { "T@0 join ULT@1 ret", 1, J_TASK, 0, T_ULT, 1, B_RET, C_JOIN, NOH, O_TJ,
       0, -1, 0 },
+    { "X join ULT@1 ret", 1, J_EXT, 0, T_ULT, 1, B_RET, C_JOIN, NOH, O_TJ, 0,
+      -1, 0 },
+    { "U@1 join ULT@1 yield-ret (same pool)", 1, J_SAME, 1, T_ULT, 1, B_YRET,
+      C_JOIN, NOH, O_TJ, 0, -1, 0 },
     { "P task_free TASK@1", 1, J_PRIM, 0, T_TASK, 1, B_RET, C_TFREE, NOH, O_TJ,
       0, -1, 0 },
-    { "X join ULT@1 cancelled by P", 1, J_EXT, 0, T_ULT, 1, B_CANCEL, C_JOIN,
-      H_PRIM, O_TJ, 0, -1, 0 },
     { "P join ULT@1 blocked, X sets", 1, J_PRIM, 0, T_ULT, 1, B_BLOCK, C_JOIN,
       H_EXT, O_TJ, 0, -1, 0 },
     { "P free_many ULT@1+ULT@0", 1, J_PRIM, 0, T_ULT, 1, B_RET, C_FREE_MANY,
       NOH, O_TJ, 0, 0, 0 },
-    { "U@0 join x2 ULT@1 exit_to", 1, J_OTHER, 0, T_ULT, 1, B_EXITTO, C_JOIN2,
-      NOH, O_TJ, 0, -1, 0 },
     { "X free ULT@1 malloc-stack", 1, J_EXT, 0, T_ULT, 1, B_RET, C_FREE, NOH,
       O_TJ, 1, -1, 0 },
     { "P join ULT@0 not started (seq)", 1, J_PRIM, 0, T_ULT, 0, B_RET, C_JOIN,
       NOH, O_TJ, 0, -1, 0 },
     { "U@0 join finished ULT@0 (seq)", 1, J_SAME, 0, T_ULT, 0, B_RET, C_JOIN,
       NOH, O_TJ, 0, -1, 0 },
-
     /* ---- thorough tier ------------------------------------------------- */
     { "U@0 join ULT@0 joiner first (seq)", 0, J_SAME, 0, T_ULT, 0, B_YRET,
       C_JOIN, NOH, O_JT, 0, -1, 0 },
@@ -83,8 +82,8 @@ static const cfg_t cfgs[] = {
       0, -1, 0 },
     { "X join_many ULT@1+ULT@0", 0, J_EXT, 0, T_ULT, 1, B_RET, C_JOIN_MANY,
       NOH, O_TJ, 0, 0, 0 },
-    { "X free_many ULT@1+ULT@1", 0, J_EXT, 0, T_ULT, 1, B_YRET, C_FREE_MANY,
-      NOH, O_TJ, 0, 1, 0 },
+    { "U@0 free_many ULT@1+ULT@1", 0, J_OTHER, 0, T_ULT, 1, B_YRET,
+      C_FREE_MANY, NOH, O_TJ, 0, 1, 0 },
     { "X task_join TASK@1", 0, J_EXT, 0, T_TASK, 1, B_RET, C_TJOIN, NOH, O_TJ,
       0, -1, 0 },
     { "X join TASK@0 cancelled early by P", 0, J_EXT, 0, T_TASK, 0, B_CANCEL,
